@@ -124,7 +124,7 @@ func TestCompileFixed(t *testing.T) {
 	}
 	defer sess.Close()
 	sess.GenTimeout = 300 * time.Second
-	designs := []*m.Design{gen.KindMatrix(), gen.ParamMatrix(), gen.ViewMatrix(), gen.DefaultsMatrix(), gen.GRPCMatrix(), gen.MapKeyMatrix(), gen.VerbMatrix(), gen.ValidationMatrix(), gen.RawBodyMatrix(), gen.StreamMatrix(), gen.GRPCStreamMatrix(), gen.MapParamsMatrix(), gen.NestMatrix(), gen.SecurityMatrix(), gen.RecursiveMatrix()}
+	designs := []*m.Design{gen.KindMatrix(), gen.ParamMatrix(), gen.ViewMatrix(), gen.DefaultsMatrix(), gen.GRPCMatrix(), gen.MapKeyMatrix(), gen.VerbMatrix(), gen.ValidationMatrix(), gen.RawBodyMatrix(), gen.StreamMatrix(), gen.GRPCStreamMatrix(), gen.MapParamsMatrix(), gen.NestMatrix(), gen.SecurityMatrix(), gen.RecursiveMatrix(), gen.WildcardMatrix()}
 	outs := make([]*pipeline.Outcome, len(designs))
 	var wg sync.WaitGroup
 	for i := range designs {
